@@ -17,7 +17,7 @@ PROP = {'technique': 'property-based testing (rapid): discrete-event bottleneck 
                  'maximum window = 20000 datagrams (NewBbrSender) or the value passed to newBbrSender (customMaxWindow traces make the clamp reachable)',
                  'per-packet bookkeeping bound: connectionStateMap slots <= 2 x (largest sent PN - oldest PN the controller may still hear about + 1) + 8; '
                  'a0Candidates <= 2 x (largest such span seen so far) + 8',
-                 'pacer progress is checked while pacing bandwidth x (now - last send) < 2^62 (C11 range)',
+                 'pacer: exact wake-up time is checked while pacing bandwidth x (now - last send) < 2^62 (C11 range); beyond that (long idle on fast paths) progress-only: budget must exist at once or within one datagram time + 1 ms',
                  'seeding (TestVerifC12_Seed*): the controller is built as UseBBR does (seedPacketSize(conn.InitialPacketSize(), GetInitialPacketSize(remote))); '
                  'QUIC then reports only sizes above the size it started at (reported size, or 1280 when it reports 0), following quic-go mtu_discoverer.go',
                  'liveness threshold theta = 0.45, fixed at half of the minimum second-half utilisation measured on the unchanged tree'],
